@@ -136,6 +136,8 @@ def run_shard(binpath, args, env, workdir, tag, prop, timeout, max_restarts=400,
     start = 0
     attempt = 0
     timeouts = 0
+    pending_timeouts = []        # a case that ran into the watchdog (or was killed from outside) is retried once; if the retry
+                                 # gets through, the incident is only counted (watchdog_retries), not a verdict of any kind
     while True:
         logp = os.path.join(workdir, "%s.%d.log" % (tag, attempt))
         errp = os.path.join(workdir, "%s.%d.err" % (tag, attempt))
@@ -161,6 +163,8 @@ def run_shard(binpath, args, env, workdir, tag, prop, timeout, max_restarts=400,
             res.lost_cases.update(hash(k) for k in tmp.case_keys)     # counters of this attempt died with it
         if done and rc == 0:
             res.done = True
+            if pending_timeouts:
+                res.stats["watchdog_retries_that_succeeded"] = res.stats.get("watchdog_retries_that_succeeded", 0) + len(pending_timeouts)
             break
         if rc == 77 and tmp.restart_at is not None:
             start = tmp.restart_at + 1
@@ -170,13 +174,19 @@ def run_shard(binpath, args, env, workdir, tag, prop, timeout, max_restarts=400,
                 res.inconclusive.append("more than %d planned restarts in %s" % (max_restarts, tag))
                 break
             continue
+        if rc == -9 and not timed_out:
+            # killed from outside (out-of-memory killer, operator): the library cannot do that to itself; same
+            # treatment as the watchdog - retry the case once, then inconclusive, never a violation
+            timed_out = True
+            res.external_kills = getattr(res, "external_kills", 0) + 1
         if timed_out:
             timeouts += 1
             if stop_after_crashes is not None and res.viols:
                 res.done = True
                 break
-            res.inconclusive.append("timeout in %s at case %s (%s)" % (tag, open_idx, open_key))
+            pending_timeouts.append("%s in %s at case %s (%s)" % ("killed from outside" if rc == -9 and getattr(res, "external_kills", 0) else "timeout", tag, open_idx, open_key))
             if timeouts >= 2 or open_idx is None:
+                res.inconclusive += pending_timeouts      # the retry did not get through either
                 break
             start = open_idx          # retry the same case once
             attempt += 1
